@@ -4,7 +4,7 @@ from __future__ import annotations
 import copy
 from typing import Any, Dict, List
 
-from . import from_tlc, gen_h1
+from . import from_tlc, gen_h1, gen_h2
 
 COMMON_ASSUMPTIONS = [
     "h11/h2/wsproto/priority libraries behave as documented (their server roles are exercised, not re-verified)",
@@ -26,17 +26,34 @@ def _dev(dev: str, expect: str) -> Dict[str, Any]:
 H1_GEN = [from_tlc.gen_h1_from_spec]
 
 PROPS: Dict[str, Dict[str, Any]] = {
-    "C01": {"monitor": "C01", "generators": [gen_h1.gen_c01] + H1_GEN, "design": H1_DESIGN},
-    "C02": {"monitor": "C02", "generators": [gen_h1.gen_c02] + H1_GEN, "design": H1_DESIGN},
-    "C03": {"monitor": "C03", "generators": [gen_h1.gen_c03] + H1_GEN, "design": H1_DESIGN,
+    "C01": {"monitor": "C01", "generators": [gen_h1.gen_c01, gen_h2.gen_h2_basic] + H1_GEN, "design": H1_DESIGN},
+    "C02": {"monitor": "C02", "generators": [gen_h1.gen_c02, gen_h2.gen_h2_basic] + H1_GEN, "design": H1_DESIGN},
+    "C03": {"monitor": "C03", "generators": [gen_h1.gen_c03, gen_h2.gen_h2_faults] + H1_GEN, "design": H1_DESIGN,
             "deviations": [_dev("DevDoubleLog", "AtMostOneAccess"), _dev("DevParked", "Released")]},
-    "C05": {"monitor": "C05", "generators": [gen_h1.gen_c05] + H1_GEN, "design": H1_DESIGN},
+    "C05": {"monitor": "C05", "generators": [gen_h1.gen_c05, gen_h2.gen_h2_faults] + H1_GEN, "design": H1_DESIGN},
     "C06": {"monitor": "C06", "generators": [gen_h1.gen_c06] + H1_GEN, "design": H1_DESIGN,
             "deviations": [_dev("DevDiscPutBlocks", "Released")]},
-    "C07": {"monitor": "C07", "generators": [gen_h1.gen_c07] + H1_GEN, "design": H1_DESIGN,
+    "C07": {"monitor": "C07", "generators": [gen_h1.gen_c07, gen_h2.gen_h2_faults] + H1_GEN, "design": H1_DESIGN,
             "deviations": [_dev("DevParked", "Released"), _dev("DevIdleKeeps", "Released"),
                            _dev("DevDiscPutBlocks", "Released")]},
 }
+
+
+PROPS["C04"] = {"monitor": "C04", "generators": [gen_h2.gen_unusual, gen_h2.gen_h2_faults, gen_h1.gen_c06] + H1_GEN}
+PROPS["C08"] = {"monitor": "C08", "generators": [gen_h2.gen_release, gen_h2.gen_flow]}
+PROPS["C09"] = {"monitor": "C09", "generators": [gen_h2.gen_flow, gen_h2.gen_release, gen_h2.gen_h2_basic]}
+PROPS["C17"] = {"monitor": "C17", "adapter": "c17",
+                "design": [{"module": "Wsgi", "cfg": "MC_Wsgi.cfg"}],
+                "technique": "TLA+ oracle (Wsgi.tla) model-checked by TLC + TLC validation of real executions of every enumerated case"}
+PROPS["C20"] = {"monitor": "C20", "adapter": "c20",
+                "design": [{"module": "Middleware", "cfg": "MC_Middleware.cfg"}],
+                "technique": "TLA+ oracle (Middleware.tla) model-checked by TLC + TLC validation of real executions of every enumerated case"}
+
+ADAPTER_ASSUMPTIONS = [
+    "the abstract case alphabet (value pools, header shapes, path segments) is representative of the unbounded input space",
+    "concretisation (building the real strings / files / argv from the abstract case) is faithful",
+    "TLC evaluates the oracle operators as specified",
+]
 
 
 def selftest(prop: str, monitor: str, jobs, traces, verdicts) -> Dict[str, Any]:
